@@ -33,8 +33,12 @@ def check_before_store(ctx):
     g = cfg_of(f.node)
     stores = [n for n in g.stmt_nodes() if n.kind == 'stmt' and isinstance(n.ast, (ast.Assign, ast.AugAssign)) and
               any(unparse(t) in ATTR_OBJ for t in (n.ast.targets if isinstance(n.ast, ast.Assign) else [n.ast.target]))]
-    _in_place_edits(ctx, f, g)
+    swap = _working_copy(g, stores)
+    _in_place_edits(ctx, f, g, extra_holders={swap} if swap else set())
     rejects_non_attributes(ctx)
+    if swap:
+        _copy_and_swap(ctx, f, g, stores[0], swap)
+        return
     if len(stores) == 0:
         # per-key form: every `self._attributes[k] = v` must be dominated by `self._check_attribute(k, v)`
         sub = []
@@ -118,6 +122,101 @@ def check_before_store(ctx):
                   fail_detail=short(e.node), key=f"R-DOM.check-before-store|caller|{e.caller.qualname}")
 
 
+def _working_copy(g, stores):
+    """`self._attributes = W` where W is a local bound once to a fresh copy of the stored dictionary: the copy-and-swap form"""
+    if len(stores) != 1 or not isinstance(stores[0].ast, ast.Assign) or not isinstance(stores[0].ast.value, ast.Name):
+        return None
+    w = stores[0].ast.value.id
+    defs = dom.assignments_to(g, w)
+    if len(defs) != 1 or not isinstance(defs[0].ast, ast.Assign):
+        return None
+    v = unparse(defs[0].ast.value)
+    copies = {f"dict({o})" for o in ATTR_OBJ} | {f"{o}.copy()" for o in ATTR_OBJ} | {'{**' + o + '}' for o in ATTR_OBJ} | {f"copy.copy({o})" for o in ATTR_OBJ}
+    return w if v in copies else None
+
+
+def _copy_and_swap(ctx, f, g, st, w):
+    """All edits go to a private copy that replaces the stored dictionary at the end: every entry written into the copy has passed the gate in the
+    same iteration, every entry of the caller's dictionary is either removed (None) or checked, and the swap happens only after the loop has run
+    to its end."""
+    res = ctx.res
+    p = f.params[1] if len(f.params) > 1 else 'val'
+    item_stores = []
+    for n in g.stmt_nodes():
+        if n.kind == 'stmt' and isinstance(n.ast, ast.Assign):
+            for t in n.ast.targets:
+                if isinstance(t, ast.Subscript) and unparse(t.value) == w:
+                    item_stores.append((n, unparse(t.slice), unparse(n.ast.value)))
+        for e in n.exprs():
+            for c in walk_local(e):
+                if isinstance(c, ast.Call) and isinstance(c.func, ast.Attribute) and unparse(c.func.value) == w and c.func.attr in ('update', 'setdefault', '__setitem__'):
+                    item_stores.append((n, '<' + c.func.attr + '>', unparse(c)))
+    res.check(bool(item_stores), 'R-DOM.check-before-store', f.fq, f"new entries are written into the working copy `{w}`", key='R-DOM.check-before-store|no-store')
+    loops = [n for n in g.stmt_nodes() if n.kind == 'for']
+    covered = None
+    for n, k, v in item_stores:
+        gates = dom.nodes_calling(g, lambda c: unparse(c.func) == 'self._check_attribute' and [unparse(a) for a in c.args] == [k, v])
+        # the loop that binds key and value
+        ln = next((l for l in loops if any(t is l and lab == 'loop' for t, lab in dom.guards_of(g, n)) and
+                   isinstance(l.stmt.target, ast.Tuple) and [unparse(e) for e in l.stmt.target.elts] == [k, v]), None)
+        ok = bool(gates) and ln is not None and all(g.path_avoiding(b, n, avoid=gates) is None for b, lab in g.succ[ln] if lab == 'loop')
+        rebound = ln is not None and any(d is not ln and any(t is ln for t, _ in dom.guards_of(g, d)) for nm in (k, v) for d in dom.assignments_to(g, nm))
+        res.check(ok and not rebound, 'R-DOM.check-before-store', f.fq, f"`{short(n.ast)}` is preceded in the same iteration by self._check_attribute({k}, {v})",
+                  fail_detail="the entry can reach the copy unvalidated" if not ok else "key or value is re-bound inside the loop", key=f"R-DOM.check-before-store|item-store|{k}",
+                  line=n.line)
+        covered = covered or ln
+    if covered is None:
+        return
+    ln = covered
+    it = ln.stmt.iter
+    src = unparse(it)
+    if isinstance(it, ast.Call) and isinstance(it.func, ast.Attribute) and it.func.attr == 'items' and isinstance(it.func.value, ast.Name):
+        ds = dom.assignments_to(g, it.func.value.id)
+        src = ' '.join(unparse(d.ast.value) for d in ds if isinstance(d.ast, ast.Assign))
+    res.check(src.startswith('replace_key_underline_with_hyphen(') and p in src, 'R-DOM.check-before-store', f.fq,
+              "the loop runs over the caller's dictionary with `_` mapped to `-` in the keys", fail_detail=src, key='R-DOM.check-before-store|source')
+    k, v = [unparse(e) for e in ln.stmt.target.elts]
+    gate_nodes = dom.nodes_calling(g, lambda c: unparse(c.func) == 'self._check_attribute' and [unparse(a) for a in c.args] == [k, v])
+    not_none = g.edge_filter_assuming({f"{v} is None": False})
+    around = any(g.path_avoiding(b, ln, avoid=gate_nodes, edge_ok=not_none) is not None for b, lab in g.succ[ln] if lab == 'loop' and b not in gate_nodes)
+    res.check(not around, 'R-DOM.check-before-store', f.fq, "inside the loop no path skips the check for an entry whose value is not None",
+              fail_detail="an iteration can complete without calling _check_attribute", key='R-DOM.check-before-store|check-every-entry', line=ln.line)
+    has_break = any(isinstance(x, ast.Break) for s in ln.stmt.body for x in ast.walk(s))
+    res.check(g.path_avoiding(g.entry, st, avoid=[ln]) is None and not has_break, 'R-DOM.check-before-store', f.fq,
+              "the swap follows the complete loop (no break): a rejected value leaves the stored dictionary as it was", key='R-DOM.check-before-store|dominates', line=st.line)
+
+
+def removal_is_total(ctx, ef):
+    """C19: removing an attribute that is not set is not an error (`el.a = None` twice, `XMLNote(default_x=None)`): the removal of a key from the
+    attribute dictionary (or its working copy) cannot raise KeyError."""
+    sm, res = ctx.sm, ctx.res
+    f = sm.func('XMLElement', '_set_attributes', T.M_XMLELEMENT)
+    g = cfg_of(f.node)
+    stores = [n for n in g.stmt_nodes() if n.kind == 'stmt' and isinstance(n.ast, (ast.Assign, ast.AugAssign)) and
+              any(unparse(t) in ATTR_OBJ for t in (n.ast.targets if isinstance(n.ast, ast.Assign) else [n.ast.target]))]
+    swap = _working_copy(g, stores)
+    holders = set(ATTR_OBJ) | ({swap} if swap else set())
+    n_rm = 0
+    for n in g.stmt_nodes():
+        for e in n.exprs():
+            for c in walk_local(e):
+                key = None
+                if isinstance(c, ast.Call) and isinstance(c.func, ast.Attribute) and unparse(c.func.value) in holders and c.func.attr == 'pop' and len(c.args) == 1 and not c.keywords:
+                    key, holder = unparse(c.args[0]), unparse(c.func.value)
+                elif isinstance(c, ast.Subscript) and unparse(c.value) in holders and isinstance(c.ctx, ast.Del):
+                    key, holder = unparse(c.slice), unparse(c.value)
+                if key is None:
+                    continue
+                n_rm += 1
+                guarded = any(t.kind == 'test' and lab == 'T' and isinstance(t.ast, ast.Compare) and isinstance(t.ast.ops[0], ast.In) and unparse(t.ast.left) == key and
+                              unparse(t.ast.comparators[0]) in holders for t, lab in dom.guards_of(g, n))
+                ok = guarded or ef.caught(f, n.ast if n.kind == 'stmt' else c, 'KeyError')
+                res.check(ok, 'R-TAINT.subscript', f.fq, f"`{short(c, 50)}` cannot raise for a key that is not set (inside `except KeyError`, or under `{key} in {holder}`)",
+                          fail_detail="assigning None to an attribute that is not set leaves __setattr__ / the constructor with an internal KeyError",
+                          key=f"R-TAINT.subscript|attribute-removal|{'pop' if isinstance(c, ast.Call) else 'del'}", line=n.line)
+    return n_rm
+
+
 def rejects_non_attributes(ctx):
     """Elements of a simple type have no attributes; a non-dictionary is not an attribute set."""
     sm, res = ctx.sm, ctx.res
@@ -137,17 +236,18 @@ def rejects_non_attributes(ctx):
     res.check(r2, 'R-DOM.check-before-store', f.fq, "a non-dictionary is rejected with TypeError before anything is read from it", key='R-DOM.check-before-store|non-dict')
 
 
-def _in_place_edits(ctx, f, g):
+def _in_place_edits(ctx, f, g, extra_holders=frozenset()):
     res = ctx.res
+    holders = set(ATTR_OBJ) | set(extra_holders)
     # in-place edits of the attribute dict: None-valued keys only
     n_pop = 0
     for n in g.stmt_nodes():
         for e in n.exprs():
             for c in walk_local(e):
                 hit = None
-                if isinstance(c, ast.Call) and isinstance(c.func, ast.Attribute) and unparse(c.func.value) in ATTR_OBJ and c.func.attr in MUTATING:
+                if isinstance(c, ast.Call) and isinstance(c.func, ast.Attribute) and unparse(c.func.value) in holders and c.func.attr in MUTATING:
                     hit = c
-                if isinstance(c, (ast.Subscript,)) and unparse(c.value) in ATTR_OBJ and isinstance(c.ctx, ast.Del):
+                if isinstance(c, (ast.Subscript,)) and unparse(c.value) in holders and isinstance(c.ctx, ast.Del):
                     hit = c
                 if hit is None:
                     continue
@@ -180,9 +280,47 @@ def _only_for_none_values(g, node, hit) -> bool:
     return False
 
 
+CACHE_DECORATORS = {'lru_cache', 'cache', 'functools.lru_cache', 'functools.cache', 'cached', 'memoize', 'memoized'}
+PLAIN_DECORATORS = {'property', 'staticmethod', 'classmethod', 'abstractmethod', 'abc.abstractmethod'}
+
+
+def no_value_keyed_cache(ctx):
+    """the validation path is not memoised by argument value"""
+    sm, res = ctx.sm, ctx.res
+    res.rule('R-MEMO.value-keyed', "no function on the validation path (value and attribute gates and everything they call) is wrapped in a cache keyed by its "
+             "arguments (functools.lru_cache / cache): such a key is equality, and 2 == 2.0 == True, 0 == 0.0 == False, so a verdict reached for one Python type is "
+             "handed out for another, while every gate decides by type first")
+    from ..engine import get_cg
+    cg = get_cg(ctx)
+    roots = [sm.func('XMLElement', 'value_', T.M_XMLELEMENT, setter=True), sm.func('XMLElement', '_set_attributes', T.M_XMLELEMENT),
+             sm.func('XMLElement', '_check_attribute', T.M_XMLELEMENT), sm.func('XSDAttribute', '__call__', T.M_ATTR),
+             sm.func('XSDSimpleType', '__init__', T.M_SIMPLE), sm.func('XSDComplexType', '__init__', T.M_COMPLEX)]
+    closure = cg.closure(roots)
+    n = 0
+    for f in sorted(closure, key=lambda x: x.fq):
+        if not f.module.name.startswith('musicxml'):
+            continue
+        n += 1
+        keyed = None
+        for d in f.decorators:
+            base = d.split('(')[0]
+            if base in PLAIN_DECORATORS or base.endswith(('.setter', '.getter', '.deleter')):
+                continue
+            if base in CACHE_DECORATORS:
+                if [p for p in f.params if p not in ('self', 'cls')] and 'typed=True' not in d.replace(' ', ''):      # typed=True keys by (type, value)
+                    keyed = d
+                continue
+            raise AnalysisError(f"{f.fq}: decorator `@{d}` on a function of the validation path is not understood (the analysed body may not be what is called)")
+        res.check(keyed is None, 'R-MEMO.value-keyed', f.fq, "not wrapped in a cache keyed by argument values",
+                  fail_detail=f"`@{keyed}`: equal values of different Python types (2 / 2.0 / True) share one cache entry: the float is accepted where only the int is valid "
+                              "and is serialised in a lexical form outside the type", key=f"R-MEMO.value-keyed|{f.qualname}", line=f.node.lineno)
+    res.floor('R-MEMO.value-keyed functions of the validation path', n, 12)
+
+
 # ---------------------------------------------------------------------------------------------- the gate itself
 def check_attribute_gate(ctx):
     sm, res = ctx.sm, ctx.res
+    no_value_keyed_cache(ctx)
     res.rule('R-DOM.attribute-gate', "_check_attribute raises for a name outside the type's attribute table and otherwise applies the attribute's type to the value")
     f = sm.func('XMLElement', '_check_attribute', T.M_XMLELEMENT)
     g = cfg_of(f.node)
